@@ -102,7 +102,7 @@ def run(ctx: Ctx) -> None:
                      "test_functools.py", "test_tasks.py", "test_partial_task.py"])
     traces, stats = schedlab.suite_test_traces(ctx, mods, timeout=ctx.pick(600, 3000))
     ctx.note("suite_traces", stats)
-    ctx.require(stats["judged"] >= ctx.pick(4, 150), f"too few executions recorded from the test-suite: {stats}")
+    ctx.require(stats["judged"] >= ctx.pick(4, 40), f"too few executions recorded from the test-suite: {stats}")
     verdicts = schedlab.validate(ctx, traces, ON, "suite")
     for t, (acc, pos, why) in zip(traces, verdicts):
         ctx.count_impl_trace()
